@@ -1,5 +1,6 @@
 //! Harness table: every entry is a Kani proof harness and a native replay
 //! target of the same name.
+use crate::fu::{self, UCfg};
 use crate::fub::{self, StepCfg};
 
 macro_rules! harness {
@@ -26,10 +27,58 @@ harness!(fub_poll_c2, fub::step_poll(&StepCfg {
     handles: false,
 }));
 
+harness!(fub_poll_c1, fub::step_poll(&StepCfg { cap: 1, selfwakes: 1, mon: fub::M_ALL, env_budget: 0, inflight_ok: false, quiet: false, handles: false }));
+harness!(fub_poll_c3, fub::step_poll(&StepCfg { cap: 3, selfwakes: 1, mon: fub::M_ALL, env_budget: 0, inflight_ok: false, quiet: false, handles: false }));
+// quiet environment (no self-wake, no racing wake): C14
+harness!(fub_poll_c2_quiet, fub::step_poll(&StepCfg { cap: 2, selfwakes: 0, mon: fub::M_ALL, env_budget: 0, inflight_ok: false, quiet: true, handles: false }));
+// racing wakes at the WakerList operation boundaries, stale handles, enqueues in flight: C01
+harness!(fub_poll_c2_env, fub::step_poll(&StepCfg { cap: 2, selfwakes: 0, mon: fub::M_ALL, env_budget: 1, inflight_ok: true, quiet: false, handles: true }));
+// per-poll budget of 61 child polls: one child that may wake itself on every poll
+harness!(fub_poll_budget, fub::step_poll(&StepCfg { cap: 1, selfwakes: 62, mon: fub::M_ALL, env_budget: 0, inflight_ok: false, quiet: false, handles: false }));
+harness!(fub_push_c2, fub::step_push(&StepCfg { cap: 2, selfwakes: 0, mon: fub::M_ALL, env_budget: 0, inflight_ok: false, quiet: false, handles: false }));
+harness!(fub_push_c2_inflight, fub::step_push(&StepCfg { cap: 2, selfwakes: 0, mon: fub::M_ALL, env_budget: 0, inflight_ok: true, quiet: false, handles: false }));
+harness!(fub_push_c0, fub::step_push(&StepCfg { cap: 0, selfwakes: 0, mon: fub::M_ALL, env_budget: 0, inflight_ok: false, quiet: false, handles: false }));
+harness!(fub_wake_c2, fub::step_wake(&StepCfg { cap: 2, selfwakes: 0, mon: fub::M_ALL, env_budget: 0, inflight_ok: false, quiet: false, handles: false }));
+harness!(fub_wake_c2_inflight, fub::step_wake(&StepCfg { cap: 2, selfwakes: 0, mon: fub::M_ALL, env_budget: 0, inflight_ok: true, quiet: false, handles: false }));
+harness!(fub_poll_c2_inflight, fub::step_poll(&StepCfg { cap: 2, selfwakes: 0, mon: fub::M_ALL, env_budget: 0, inflight_ok: true, quiet: false, handles: false }));
+harness!(fub_poll_c2_handles, fub::step_poll(&StepCfg { cap: 2, selfwakes: 0, mon: fub::M_ALL, env_budget: 1, inflight_ok: false, quiet: false, handles: true }));
+harness!(fub_drop_c2, fub::step_drop(&StepCfg { cap: 2, selfwakes: 0, mon: fub::M_ALL, env_budget: 0, inflight_ok: false, quiet: false, handles: true }));
+
+// FuturesUnordered (groups of capacities 1,2 stand in for 32,64)
+harness!(fu_poll_12, fu::step_poll(&UCfg { caps: [1, 2, 0], n: 2, selfwakes: 1, quiet: false, cursor: 0 }));
+harness!(fu_poll_12_quiet, fu::step_poll(&UCfg { caps: [1, 2, 0], n: 2, selfwakes: 0, quiet: true, cursor: 0 }));
+harness!(fu_poll_12_c1, fu::step_poll(&UCfg { caps: [1, 2, 0], n: 2, selfwakes: 1, quiet: false, cursor: 1 }));
+harness!(fu_poll_12_c2, fu::step_poll(&UCfg { caps: [1, 2, 0], n: 2, selfwakes: 1, quiet: false, cursor: 2 }));
+harness!(fu_poll_2, fu::step_poll(&UCfg { caps: [2, 0, 0], n: 1, selfwakes: 1, quiet: false, cursor: 0 }));
+harness!(fu_push_12, fu::step_push(&UCfg { caps: [1, 2, 0], n: 2, selfwakes: 0, quiet: true, cursor: 0 }));
+harness!(fu_push_2, fu::step_push(&UCfg { caps: [2, 0, 0], n: 1, selfwakes: 0, quiet: true, cursor: 0 }));
+
+harness!(x_h1e0, fub::step_poll(&StepCfg { cap: 2, selfwakes: 0, mon: fub::M_ALL, env_budget: 0, inflight_ok: false, quiet: false, handles: true }));
+harness!(x_h0e1, fub::step_poll(&StepCfg { cap: 2, selfwakes: 0, mon: fub::M_ALL, env_budget: 1, inflight_ok: false, quiet: false, handles: false }));
+
 /// name -> function, for the native replayer
 pub fn table() -> &'static [(&'static str, fn())] {
     &[
         ("fub_poll_c2", fub_poll_c2),
-        ("p_fail", crate::probes::p_fail),
+        ("fub_poll_c1", fub_poll_c1),
+        ("fub_poll_c3", fub_poll_c3),
+        ("fub_poll_c2_quiet", fub_poll_c2_quiet),
+        ("fub_poll_c2_env", fub_poll_c2_env),
+        ("fub_poll_budget", fub_poll_budget),
+        ("fub_push_c2", fub_push_c2),
+        ("fub_push_c0", fub_push_c0),
+        ("fub_wake_c2", fub_wake_c2),
+        ("fub_drop_c2", fub_drop_c2),
+        ("fu_poll_12", fu_poll_12),
+        ("fu_poll_12_quiet", fu_poll_12_quiet),
+        ("fu_poll_2", fu_poll_2),
+        ("fu_poll_12_c1", fu_poll_12_c1),
+        ("fu_poll_12_c2", fu_poll_12_c2),
+        ("fu_push_12", fu_push_12),
+        ("fu_push_2", fu_push_2),
+        ("fub_push_c2_inflight", fub_push_c2_inflight),
+        ("fub_wake_c2_inflight", fub_wake_c2_inflight),
+        ("fub_poll_c2_inflight", fub_poll_c2_inflight),
+        ("fub_poll_c2_handles", fub_poll_c2_handles),
     ]
 }
